@@ -35,9 +35,11 @@ def exe():
 
 
 def scenarios(thorough):
-    base = ["A,B", "A,a", "A,X", "A,U", "AB,B", "A,R", "R,S", "R,T", "R,r", "B,A"]
+    # N = a registration into the provider table made while the plugin table is held exclusively (what a library initializer
+    # does under mj_loadAllPluginLibraries): the two tables' locks must be independent
+    base = ["A,B", "A,a", "A,X", "A,U", "AB,B", "A,R", "R,S", "R,T", "R,r", "B,A", "N,S"]
     if thorough:
-        base += ["AB,BA", "AX,U", "Aa,X", "RS,TA", "AB,RS"]
+        base += ["AB,BA", "AX,U", "Aa,X", "RS,TA", "AB,RS", "N,R", "N,T", "NA,S"]
     return base
 
 
@@ -114,7 +116,7 @@ def run(ctx):
     cap = ctx.q(15000, 40000)
     jobs = []
     nshard = ctx.q(4, 8)
-    deep = {"A,B", "A,X", "A,a"}     # quick: the full preemption bound on three scenarios, one less on the others
+    deep = {"A,B", "A,X", "A,a", "N,S"}     # quick: the full preemption bound on three scenarios, one less on the others
     for sc in scenarios(ctx.thorough):
         for prefill in ((14,) if not ctx.thorough else (14, 29)):
             b = bound if (ctx.thorough or sc in deep) else bound - 1
